@@ -159,7 +159,10 @@ sys.path.insert(0, %(verif)r); sys.path.insert(1, '/repo')
 sys.setrecursionlimit(20000)
 mod = importlib.import_module(%(module)r)
 if hasattr(mod, 'warmup'):
-    mod.warmup()
+    try:
+        mod.warmup()
+    except Exception:
+        pass
 mod.PART = %(part)r
 ENGINE = %(engine)r
 try:
@@ -228,7 +231,7 @@ def main(argv=None):
     if hasattr(mod, 'selftest'):
         try:
             proc = subprocess.run([PY, '-c', 'import sys; sys.path.insert(0, %r); import importlib; m = importlib.import_module(%r);\n'
-                                   'hasattr(m, "warmup") and m.warmup()\nimport json; print("SELFTEST " + json.dumps(m.selftest(%d)))'
+                                   'import json; print("SELFTEST " + json.dumps(m.selftest(%d)))'
                                    % (VERIF, modname, seed)], capture_output=True, text=True, env=worker_env(),
                                   timeout=900, cwd=VERIF)
             line = [l for l in proc.stdout.splitlines() if l.startswith('SELFTEST ')]
